@@ -89,6 +89,7 @@ theorem verifyJSONs_source : VGen.keyringSkelVerifyJSONs = [
   "return nil, err",
   "}",
   "keysFetched := map[PublicKeyLookupRequest]PublicKeyLookupResult{}",
+  "keysToStore := map[PublicKeyLookupRequest]PublicKeyLookupResult{}",
   "now := spec.AsTimestamp(time.Now())",
   "for req, res := range keysFromDatabase {",
   "if res.ExpiredTS != PublicKeyNotExpired {",
@@ -132,11 +133,12 @@ theorem verifyJSONs_source : VGen.keyringSkelVerifyJSONs = [
   "}",
   "}",
   "keysFetched[req] = res",
+  "keysToStore[req] = res",
   "delete(keyRequests, req)",
   "}",
   "}",
   "k.checkUsingKeys(requests, results, keyIDs, keysFetched)",
-  "if err := k.KeyDatabase.StoreKeys(ctx, keysFetched); err != nil {",
+  "if err := k.KeyDatabase.StoreKeys(ctx, keysToStore); err != nil {",
   "return nil, err",
   "}",
   "return results, nil"
@@ -554,8 +556,8 @@ theorem fetch_minimal {reqs : List Request} {db : FetchScript} {storeOk : Bool} 
         simp only [not_or, Classical.not_not, Nat.not_lt] at this
         exact this
 
-/-- **What was fetched is stored.**  Whenever a fetcher was called, `StoreKeys` is called with the final key
-    map, and that map holds, for every key the fetcher was asked for and answered, the fetcher's answer. -/
+/-- **What was fetched is stored.**  Whenever a fetcher was called, `StoreKeys` is called, and the map it is called
+    with holds, for every key the fetcher was asked for and answered, the fetcher's answer. -/
 theorem stores_fetched {reqs : List Request} {db : FetchScript} {storeOk : Bool} {fetchers : List FetchScript} {now : Nat}
     {out : Except CallErr (List Bool)} {tr : Trace} (h : verifyJSONs reqs db storeOk fetchers now = (out, tr))
     (c : Nat × ReqMap) (hc : c ∈ tr.fetcherCalls) :
@@ -567,9 +569,51 @@ theorem stores_fetched {reqs : List Request} {db : FetchScript} {storeOk : Bool}
   · refine ⟨_, hst, ?_⟩
     rw [hcalls] at hc
     unfold finalState at hc ⊢
-    rcases fetchLoop_answers fetchers 0 _ c hc with h1 | ⟨_, h1⟩
+    rcases fetchLoop_toStore_answers fetchers 0 _ c hc with h1 | ⟨_, h1⟩
     · cases h1
     · simpa using h1
+
+/-- **… and nothing else is** ("stores what it fetched" — not what it read).  Every entry `StoreKeys` is called with is
+    an entry of the answer of a fetcher that this call consulted.  In particular an entry the call only READ from the
+    database is never written back: between the read and the store another call on the same database may have
+    replaced it with a newer one (C19: `V.C19.verify_store_only_fetched`, `V.C19.verify_no_lost_update`).
+
+    Until /repo 3755557 the call ended with `StoreKeys(keysFetched)` — everything it held, database entries included —
+    and the model said `stored := keysFetched`: this statement was false of both (second audit round, defect V1). -/
+theorem stores_only_fetched {reqs : List Request} {db : FetchScript} {storeOk : Bool} {fetchers : List FetchScript} {now : Nat}
+    {out : Except CallErr (List Bool)} {tr : Trace} (h : verifyJSONs reqs db storeOk fetchers now = (out, tr))
+    (stored : KeyMap) (hs : tr.stored = some stored) (e : KeyReq × KeyRes) (he : e ∈ stored) :
+    ∃ c ∈ tr.fetcherCalls, ∃ m, fetchers[c.1]? = some (some m) ∧ e ∈ m :=
+  verifyJSONs_stored_mem h stored hs e he
+
+theorem nth?_eq_getElem? {α} (l : List α) (i : Nat) : Spec.nth? l i = l[i]? := by
+  induction l generalizing i with
+  | nil => cases i <;> rfl
+  | cons x xs ih => cases i with
+    | zero => rfl
+    | succ j => simpa [Spec.nth?] using ih j
+
+/-- the judgement of the specification stream ("a key that no fetcher supplied … was stored") is `stores_only_fetched` -/
+theorem stores_only_fetched_spec {reqs : List Request} {db : FetchScript} {storeOk : Bool} {fetchers : List FetchScript} {now : Nat}
+    {out : Except CallErr (List Bool)} {tr : Trace} (h : verifyJSONs reqs db storeOk fetchers now = (out, tr))
+    (stored : KeyMap) (hs : tr.stored = some stored) :
+    stored.all (fun e => tr.fetcherCalls.any (fun c =>
+      match Spec.nth? fetchers c.1 with
+      | some (some m) => m.contains e
+      | _ => false)) = true := by
+  rw [List.all_eq_true]
+  intro e he
+  obtain ⟨c, hc, m, hm, hem⟩ := stores_only_fetched h stored hs e he
+  rw [List.any_eq_true]
+  refine ⟨c, hc, ?_⟩
+  rw [nth?_eq_getElem?, hm]
+  simpa using hem
+
+/-- a failing (or empty-handed) fetcher leaves nothing to store: the database is not written at all -/
+theorem stores_nothing_without_answers {reqs : List Request} {db : FetchScript} {storeOk : Bool} {fetchers : List FetchScript} {now : Nat}
+    {out : Except CallErr (List Bool)} {tr : Trace} (h : verifyJSONs reqs db storeOk fetchers now = (out, tr))
+    (hf : ∀ f ∈ fetchers, f = none ∨ f = some []) : tr.stored = none ∨ tr.stored = some [] :=
+  verifyJSONs_stored_silent h hf
 
 /-- **Key responses.**  `CheckKeys` accepts a response (AllChecksOK) iff it names the server asked for, its
     `valid_until_ts` is after the instant given, it has at least one ed25519 key, and every ed25519 key is
@@ -808,6 +852,18 @@ theorem stale_db_key_replaced :
     key for A; A succeeds -/
 example :
     (verifyJSONs [exReqA, exReqB] (some []) true [some [(exQA, exFresh)], some [(exQA, exWrong)]] 5000).1 = .ok [true, false] := by rfl
+
+/-- the behaviour fixed in /repo (3755557): the database's entry for A is past its validity and the fetcher fails — the
+    call uses the stale entry it read, and hands `StoreKeys` NOTHING (it used to write the entry it had read back);
+    when the fetcher answers, exactly its answer is stored -/
+example :
+    (verifyJSONs [{ exReqA with atTS := 3000 }] (some [(exQA, exStale)]) true [none] 5000).2.stored = some [] := by rfl
+example :
+    (verifyJSONs [{ exReqA with atTS := 3000 }] (some [(exQA, exStale)]) true [some [(exQA, exFresh)]] 5000) =
+      (.ok [true], { dbAsked := some [(exQA, 3000)], fetcherCalls := [(0, [(exQA, 3000)])], stored := some [(exQA, exFresh)] }) := by rfl
+/-- … and an entry the call only read (B's, inside its validity) stays out of what is stored beside a fetched one -/
+example :
+    (verifyJSONs [exReqA, exReqB] (some [(⟨[98], exKid⟩, exFresh)]) true [some [(exQA, exFresh)]] 5000).2.stored = some [(exQA, exFresh)] := by rfl
 
 def exPastResponse : ServerKeys where
   serverName := [97]
